@@ -644,7 +644,7 @@ def fam_method(rng, opts=None):
 def _add_lmi(b, owner="pep", force_kind=None, force_name=None):
     """An LMI that is feasible at the origin: PSD constant part, arbitrary off-diagonal expressions."""
     rng = b.rng
-    kind = force_kind or b.pick(["sym2", "nonsym2", "sym3", "one", "schur"])
+    kind = force_kind or b.pick(["sym2", "nonsym2", "sym3", "one", "schur", "offconst"])
     if not b.points:
         return None
     p, q = b.pick(b.points), b.pick(b.points)
@@ -661,6 +661,15 @@ def _add_lmi(b, owner="pep", force_kind=None, force_name=None):
         w = b.pick([None, None, 0.5, 2.0])
         rows = [[t if w is None else b.expr([[w, "e", t]]), ip], [ip, 1.0]]
         b.cons(t, "<=", 5.0)
+    elif kind == "offconst":
+        # [[s, c], [c, t]] : s t >= c^2 with the CONSTANT off the diagonal, s and t fresh leaves bounded above
+        s_, t = b.nm("t"), b.nm("t")
+        for x_ in (s_, t):
+            b.emit({"op": "leafexpr", "out": x_})
+            b.exprs.append(x_); b.values.append(x_)
+            b.cons(x_, "<=", 5.0)
+        c = b.pick([1.0, 0.5, -1.0, 2.0])
+        rows = [[s_, c], [c, t]]
     elif kind == "sym2":
         d1 = b.expr([[1.0, "sq", p], [1.0, "const"]])
         d2 = b.expr([[2.0, "const"]])
@@ -865,7 +874,7 @@ def fam_soup(rng, opts=None):
         v0 = len(b.values)
         for _ in range(b.pick([2, 2, 3])):
             _add_lmi(b, owner="pep" if rng.random() < 0.6 else b.pick(b.funcs)[0],
-                     force_kind="schur" if active else b.pick(["sym2", "schur"]), force_name="lmi")
+                     force_kind=b.pick(["schur", "offconst"]) if active else b.pick(["sym2", "schur"]), force_name="lmi")
         nl = 0
         b.feat("same_name_lmis")
         if active:
